@@ -1,5 +1,194 @@
 import ZoektModel.Basic.Proto
+import ZoektModel.C25.Spec
 namespace ZoektModel.C25
-/-- stub: no model driver for C25 yet -/
-def main : IO Unit := ZoektModel.Proto.runLines (fun _ => ZoektModel.Proto.badCase "no model driver for C25")
+open ZoektModel ZoektModel.Proto
+
+/-! line syntax
+  event : `counters/dur/fr/prio/maxp/files`   counters = nat list, files = `id:size,…` or `-`
+  msg   : `files/stats/prio/maxp`             stats = `nil` or `counters~dur~fr`
+  lists of events / msgs are `;` separated, `-` = empty list; priorities are integers, `-inf` or `+inf`
+-/
+
+def parsePri (s : String) : Option Pri :=
+  if s == "-inf" then some .negInf
+  else if s == "+inf" then some .posInf
+  else s.toInt?.map .fin
+
+def showPri : Pri → String
+  | .negInf => "-inf"
+  | .posInf => "+inf"
+  | .fin i => toString i
+
+def parseFiles (s : String) : Option (List File) :=
+  if s == "-" then some [] else
+  (s.splitOn ",").mapM fun e =>
+    match e.splitOn ":" with
+    | [a, b] => do pure ⟨← a.toNat?, ← b.toNat?⟩
+    | _ => none
+
+def showFiles (l : List File) : String := showList (fun f => s!"{f.id}:{f.size}") l
+
+def parseEvent (s : String) : Option Event :=
+  match s.splitOn "/" with
+  | [c, d, fr, p, mp, fs] => do
+    let c ← natList? c
+    let d ← d.toNat?
+    let fr ← fr.toNat?
+    let p ← parsePri p
+    let mp ← parsePri mp
+    let fs ← parseFiles fs
+    pure ⟨⟨c, d, fr⟩, ⟨p, mp⟩, fs⟩
+  | _ => none
+
+def parseEvents (s : String) : Option (List Event) :=
+  if s == "-" then some [] else (s.splitOn ";").mapM parseEvent
+
+def padTo (w : Nat) (l : List Nat) : List Nat := l ++ List.replicate (w - l.length) 0
+
+def showStats (w : Nat) (s : Stats) : String := s!"{showNatList (padTo w s.c)}~{s.dur}~{s.fr}"
+
+def showEvent (w : Nat) (e : Event) : String :=
+  s!"{showNatList (padTo w e.stats.c)}/{e.stats.dur}/{e.stats.fr}/{showPri e.prog.prio}/{showPri e.prog.maxp}/{showFiles e.files}"
+
+def showEvents (w : Nat) (l : List Event) : String :=
+  if l.isEmpty then "-" else ";".intercalate (l.map (showEvent w))
+
+def parseMsgStats (s : String) : Option (Option Stats) :=
+  if s == "nil" then some none else
+  match s.splitOn "~" with
+  | [c, d, fr] => do pure (some ⟨← natList? c, ← d.toNat?, ← fr.toNat?⟩)
+  | _ => none
+
+def parseMsg (s : String) : Option Msg :=
+  match s.splitOn "/" with
+  | [fs, st, p, mp] => do
+    let fs ← parseFiles fs
+    let st ← parseMsgStats st
+    let p ← parsePri p
+    let mp ← parsePri mp
+    pure ⟨fs, st, ⟨p, mp⟩⟩
+  | _ => none
+
+def parseMsgs (s : String) : Option (List Msg) :=
+  if s == "-" then some [] else (s.splitOn ";").mapM parseMsg
+
+def showMsg (w : Nat) (m : Msg) : String :=
+  let st := match m.stats with | none => "nil" | some s => showStats w s
+  s!"{showFiles m.files}/{st}/{showPri m.prog.prio}/{showPri m.prog.maxp}"
+
+def showMsgs (w : Nat) (l : List Msg) : String :=
+  if l.isEmpty then "-" else ";".intercalate (l.map (showMsg w))
+
+def evWidth (evs : List Event) : Nat := (evs.map (·.stats.c.length)).foldl Nat.max 0
+
+/-- chunks: `|` separated, each a file list (`-` = the empty chunk); `none` = no chunk at all -/
+def showChunks (l : List (List File)) : String :=
+  if l.isEmpty then "none" else "|".intercalate (l.map showFiles)
+
+def parseChunks (s : String) : Option (List (List File)) :=
+  if s == "none" then some [] else (s.splitOn "|").mapM parseFiles
+
+/-- forwarded events seen as messages (every event carries stats) -/
+def evAsMsg (e : Event) : Msg := ⟨e.files, some e.stats, e.prog⟩
+
+def parseRFiles (s : String) : Option (List RFile) :=
+  if s == "-" then some [] else
+  (s.splitOn ",").mapM fun e =>
+    match e.splitOn ":" with
+    | [a, b] => do pure ⟨← a.toNat?, ← b.toNat?⟩
+    | _ => none
+
+def parseByRepoOut (s : String) : Option (List (List Nat × Stats)) :=
+  if s == "-" then some [] else
+  (s.splitOn ";").mapM fun e =>
+    match e.splitOn "/" with
+    | [ids, st] => do
+      let ids ← natList? ids
+      match ← parseMsgStats st with
+      | some st => pure (ids, st)
+      | none => none
+    | _ => none
+
+def verdict (model : String) (max : Nat) (evs : List Event) (msgs : List Msg) : String :=
+  if checkP max evs msgs then answer model else specFail model (failKey max evs msgs)
+
+def handle (line : String) : String :=
+  let (inp, impl) := splitCase line
+  match fields inp with
+  | ["pipe", mx, per, es] =>
+    match mx.toNat?, per.toNat?, parseEvents es with
+    | some mx, some per, some evs =>
+      let model := showMsgs (evWidth evs) (pipeline mx per evs)
+      match parseMsgs impl with
+      | none => badCase "impl msgs"
+      | some msgs => verdict model mx evs msgs
+    | _, _, _ => badCase "pipe fields"
+  | ["grpc", mx, e] =>
+    match mx.toNat?, parseEvent e with
+    | some mx, some ev =>
+      let model := showMsgs ev.stats.c.length (grpcSend mx ev)
+      match parseMsgs impl with
+      | none => badCase "impl msgs"
+      | some msgs => verdict model mx [ev] msgs
+    | _, _ => badCase "grpc fields"
+  | ["samp", per, es] =>
+    match per.toNat?, parseEvents es with
+    | some per, some evs =>
+      let model := showEvents (evWidth evs) (sample per evs)
+      match parseEvents impl with
+      | none => badCase "impl events"
+      | some out =>
+        -- the budget clause does not apply to the sampler alone
+        let msgs := out.map evAsMsg
+        if filesOk evs msgs && countersOk evs msgs then answer model
+        else specFail model ("sampler-" ++
+          (if !filesOk evs msgs then "files-not-exactly-once-in-order" else "counter-not-conserved"))
+    | _, _ => badCase "samp fields"
+  | ["coll", k, es] =>
+    -- `k` = number of results sent before the timer fired, `none` = the timer never fired
+    match parseEvents es with
+    | some evs =>
+      let sends := evs.map FOp.send
+      let ops? : Option (List FOp) :=
+        if k == "none" then some sends
+        else k.toNat?.map fun k => sends.take k ++ [FOp.timer] ++ sends.drop k
+      match ops? with
+      | none => badCase "coll flush point"
+      | some ops =>
+        let model := showEvents (evWidth evs) (collect sortByScore ops)
+        match parseEvents impl with
+        | none => badCase "impl events"
+        | some out =>
+          if checkCollector evs out then answer model
+          else specFail model "collector-files-or-counters-not-conserved"
+    | none => badCase "coll fields"
+  | ["byrepo", multi, st, fs] =>
+    -- one shard result through sendByRepository: `multi` = more than one entry in RepoURLs; files are `id:repo`
+    match bool? multi, parseMsgStats st, parseRFiles fs with
+    | some multi, some (some stats), some files =>
+      let sort := fun (l : List RFile) => l.mergeSort fun a b => decide (scoreKey b.id ≤ scoreKey a.id)
+      let out := byRepo sort multi stats files
+      let model := if out.isEmpty then "-" else ";".intercalate (out.map fun p => s!"{showNatList (p.1.map (·.id))}/{showStats stats.c.length p.2}")
+      match parseByRepoOut impl with
+      | none => badCase "impl byrepo"
+      | some got =>
+        let ids : List Nat := (got.flatMap (·.1)).mergeSort (· ≤ ·)
+        let want : List Nat := (files.map (·.id)).mergeSort (· ≤ ·)
+        let ctrOk := (List.range stats.c.length).all fun i => ((got.map (·.2.ctr i)).sum == stats.ctr i)
+        if decide (ids = want) && ctrOk then answer model else specFail model "byrepo-files-or-counters-not-conserved"
+    | _, _, _ => badCase "byrepo fields"
+  | ["chunk", mx, fs] =>
+    match mx.toNat?, parseFiles fs with
+    | some mx, some items =>
+      let model := showChunks (sendAll mx items)
+      match parseChunks impl with
+      | none => badCase "impl chunks"
+      | some chunks =>
+        let msgs : List Msg := chunks.map fun ch => ⟨ch, none, Prog.empty⟩
+        if filesOk [⟨Stats.empty, Prog.empty, items⟩] msgs && budgetOk mx msgs then answer model
+        else specFail model ("chunker-" ++ (if !filesOk [⟨Stats.empty, Prog.empty, items⟩] msgs then "files-not-exactly-once-in-order" else "message-over-budget"))
+    | _, _ => badCase "chunk fields"
+  | _ => badCase "op"
+
+def main : IO Unit := runLines handle
 end ZoektModel.C25
